@@ -25,12 +25,15 @@ def sh(cmd, cwd=None, env=None, timeout=3000):
 
 def main():
     only = None
+    start = None
     seed = "0"
     for i, a in enumerate(sys.argv):
         if a == "--only":
             only = set(sys.argv[i + 1].split(","))
         if a == "--seed":
             seed = sys.argv[i + 1]
+        if a == "--from":
+            start = sys.argv[i + 1]
     rc, o = sh("git status --porcelain", cwd="/repo")
     assert o.strip() == "", "/repo is not clean: " + o
     summary = {"caught_with_input": 0, "caught_no_input": 0, "missed": 0, "not_applicable": 0}
@@ -38,22 +41,28 @@ def main():
         if not (d / "patch.diff").exists() or (only and d.name not in only):
             continue
         pid = d.name.split("_")[0]
+        if start and d.name < start:
+            continue
         rc, o = sh(f"git apply --check {d / 'patch.diff'}", cwd="/repo")
         how = "plain"
         if rc != 0:
-            rc, o = sh(f"git apply --3way --check {d / 'patch.diff'}", cwd="/repo")
-            how = "3way"
+            # a later fix: commit may have shifted the context by a line or two; a real conflict is NOT forced (3-way merges with
+            # conflict markers once ran every later seed on a broken tree, §8)
+            rc, o = sh(f"git apply --check -C1 {d / 'patch.diff'}", cwd="/repo")
+            how = "C1"
         if rc != 0:
             rec = {"id": d.name, "applies": False, "why": o.strip()[-200:]}
             summary["not_applicable"] += 1
             (d / "recheck.json").write_text(json.dumps(rec, indent=1) + "\n")
             print(d.name, "DOES NOT APPLY to the current /repo (kept for the record)")
             continue
-        sh(f"git apply {'--3way ' if how == '3way' else ''}{d / 'patch.diff'}", cwd="/repo")
+        sh(f"git apply {'-C1 ' if how == 'C1' else ''}{d / 'patch.diff'}", cwd="/repo")
         try:
             rc, o = sh(f"./check {pid} --tier quick", cwd=V, env={"VERIF_SEED": seed}, timeout=6000)
         finally:
-            sh("git checkout -- . && git reset -q", cwd="/repo")
+            sh("git reset -q --hard HEAD", cwd="/repo")     # /repo has no uncommitted work of its own (asserted above)
+            rc2, o2 = sh("git status --porcelain", cwd="/repo")
+            assert o2.strip() == "", "/repo not restored: " + o2
         viol = [l for l in o.splitlines() if l.startswith("VIOLATION")]
         summ = [l for l in o.splitlines() if l.startswith(f"[{pid}]")]
         finding = None
